@@ -47,7 +47,14 @@ def _build_col(kind, values, extra):
 def refill_in_place(df, spec):
     """Overwrite the values of ``df`` (same object) with those of ``spec``.
 
-    The spec must have the same columns and the same number of rows."""
+    The spec has the same columns; it may have FEWER rows: then the caller first deletes the trailing
+    rows of that very object in place (what ``df.dropna(inplace=True)`` / ``df.drop(..., inplace=True)`` do)."""
+    n_new = n_rows(spec)
+    if n_new < len(df):
+        old_index = list(df.index)
+        df.index = range(len(df))  # labels may be duplicated: delete by position
+        df.drop(index=list(range(n_new, len(df))), inplace=True)
+        df.index = pd.Index(old_index[:n_new])
     for name, kind, values, extra in spec["cols"]:
         df[name] = _build_col(kind, values, extra)
     return df
